@@ -29,10 +29,10 @@ Only report what you reproduced. Quality over quantity: 1-4 solid findings are i
 
 @PROPS@
 
-For each finding write, in @OUT@/findings.md: the property id, a one-paragraph explanation naming the file/function/line responsible, the exact reproduction (also as a runnable script
+For each finding write, in @OUT@/findings.txt: the property id, a one-paragraph explanation naming the file/function/line responsible, the exact reproduction (also as a runnable script
 @OUT@/repro_<n>.sh that takes the checkout path as $1, builds nothing, uses @WT@/target/debug/fclones, creates its scratch files under a fresh mktemp -d, prints what it observed and exits 1 if the
 defect is present, 0 if not), what the documented/expected behaviour is and why, and a suggestion for a minimal repair. Do not change the source (temporary debug prints are fine but revert them).
-Your final message should summarise the findings briefly."""
+Your final message should contain the full findings text as well (write the file with a shell heredoc; files ending in .md cannot be written here)."""
 s = s.replace('@WT@', '/tmp/hunt/' + tag).replace('@OUT@', '/tmp/hunt/%s-out' % tag).replace('@PROPS@', '\n'.join(txt))
 open('/tmp/hunt/%s.prompt.txt' % tag, 'w').write(s)
 print('/tmp/hunt/%s.prompt.txt' % tag)
